@@ -304,8 +304,10 @@ func (wc *wCase) classify(r wResult, what string) string {
 func genWModels(rng *rand.Rand, n int) []*Model {
 	ms := make([]*Model, n)
 	for i := range ms {
-		if rng.Intn(5) == 0 {
+		if k := rng.Intn(10); k < 2 {
 			ms[i] = GenGraphModel(rng)
+		} else if k < 4 {
+			ms[i] = GenWildModel(rng)
 		} else {
 			ms[i] = GenWModel(rng)
 		}
